@@ -64,9 +64,11 @@ const (
 	JAsm88  // an ICWS'88 assembly (the '88 validation path)
 	JAsmErr // an assembly that fails (undefined symbol: the error path)
 	JAsmLbl // a FOR block with a block label used inside and after it
+	JSim2   // two rounds in one simulator with Reset called twice in between
+	JAsmOrg // the entry point given by ORG and again (same value) by END
 )
 
-var jobNames = []string{"assemble(mov 0, -1)", "assemble(EQU + FOR)", "simulate(shared warrior)", "load(MOV.I $ 0, $ 1)", "assemble(labels + EQU chain + ;assert)", "assemble(FOR 0: a pass that emits nothing)", "assemble(mov 0, -1 under CORESIZE 8000)", "assemble(ICWS'88 dwarf)", "assemble(undefined symbol: an error)", "assemble(labelled FOR block)"}
+var jobNames = []string{"assemble(mov 0, -1)", "assemble(EQU + FOR)", "simulate(shared warrior)", "load(MOV.I $ 0, $ 1)", "assemble(labels + EQU chain + ;assert)", "assemble(FOR 0: a pass that emits nothing)", "assemble(mov 0, -1 under CORESIZE 8000)", "assemble(ICWS'88 dwarf)", "assemble(undefined symbol: an error)", "assemble(labelled FOR block)", "simulate(two rounds, Reset twice)", "assemble(ORG and END agree)"}
 
 const srcAsm1 = "mov 0, -1\n"
 const srcAsm2 = "n equ 2\ni for n\ndat i, n\nrof\n"
@@ -95,6 +97,28 @@ func RunJob(kind int, cfg g.SimulatorConfig, shared *g.WarriorData) (res string)
 		return render(g.CompileWarrior(strings.NewReader(srcAsm1), cfg))
 	case JAsm1b:
 		return render(g.CompileWarrior(strings.NewReader(srcAsm1), g.ConfigNOP94))
+	case JAsmOrg:
+		return render(g.CompileWarrior(strings.NewReader("org 1\nmov 0, 1\nmov 0, 1\nend 1\n"), cfg))
+	case JSim2:
+		sim, err := g.NewSimulator(cfgSmall)
+		if err != nil {
+			return "error"
+		}
+		w1, _ := sim.AddWarrior(shared)
+		w2, _ := sim.AddWarrior(&g.WarriorData{Code: []g.Instruction{{Op: g.JMP, OpMode: g.B}}, Start: 0})
+		sim.SpawnWarrior(0, 1)
+		sim.SpawnWarrior(1, 4)
+		sim.RunCycle()
+		sim.Reset()
+		sim.Reset()
+		sim.SpawnWarrior(0, 0)
+		sim.SpawnWarrior(1, 3)
+		r := sim.Run()
+		core := make([]g.Instruction, 5)
+		for a := range core {
+			core[a] = sim.GetMem(g.Address(a))
+		}
+		return fmt.Sprintf("res=%v cycles=%d core=%s queues=%v %v", r, sim.CycleCount(), hx.CoreStr(core), w1.Queue(), w2.Queue())
 	case JAsm88:
 		return render(g.CompileWarrior(strings.NewReader("loop add #4, bomb\nmov bomb, @bomb\njmp loop\nbomb dat #0, #0\nend loop\n"), g.ConfigKOTH88))
 	case JAsmErr:
@@ -159,7 +183,7 @@ func (s *Scenario) describe() string {
 func Scenarios(thorough bool) [][]int {
 	// single jobs too: one assembly already runs a consumer and one or two
 	// producer goroutines whose interleaving must not change its result
-	out := [][]int{{JAsm4}, {JAsm2}, {JAsm1}, {JAsm4, JAsm1}, {JAsm1, JAsm1b}, {JAsm1b, JAsm1}, {JAsm88, JAsm1}, {JAsmErr, JAsm1}, {JAsmErr, JAsmErr}, {JAsmLbl, JAsm2}, {JAsmLbl, JAsmLbl}, {JAsm1, JAsm1}, {JAsm1, JSim}, {JSim, JSim}, {JLoad, JAsm1}, {JLoad, JSim}, {JAsm1, JAsm2}, {JAsm2, JSim}, {JAsm2, JAsm2}, {JAsm3, JAsm1}, {JAsm3, JAsm3}}
+	out := [][]int{{JAsm4}, {JAsm2}, {JAsm1}, {JAsm4, JAsm1}, {JAsm1, JAsm1b}, {JAsm1b, JAsm1}, {JAsm88, JAsm1}, {JAsmErr, JAsm1}, {JAsmErr, JAsmErr}, {JAsmLbl, JAsm2}, {JAsmLbl, JAsmLbl}, {JSim2, JSim2}, {JSim2, JSim}, {JAsmOrg, JAsmOrg}, {JAsm1, JAsm1}, {JAsm1, JSim}, {JSim, JSim}, {JLoad, JAsm1}, {JLoad, JSim}, {JAsm1, JAsm2}, {JAsm2, JSim}, {JAsm2, JAsm2}, {JAsm3, JAsm1}, {JAsm3, JAsm3}}
 	if thorough {
 		out = append(out, []int{JAsm1, JAsm2, JSim}, []int{JSim, JSim, JAsm1}, []int{JAsm3, JSim, JLoad}, []int{JAsm1, JAsm1, JAsm1})
 	} else {
@@ -186,6 +210,8 @@ func Expected(kind int) (string, bool) {
 		return `ok [ADD.AB #4 $3 | MOV.I $2 @2 | JMP.B $7998 $0 | DAT.F #0 #0] start=0 name=""`, true
 	case JAsmErr:
 		return "error", true
+	case JAsmOrg:
+		return `ok [MOV.I $0 $1 | MOV.I $0 $1] start=1 name=""`, true
 	case JAsmLbl:
 		return `ok [JMP.B $1 $0 | ADD.AB #1 $0 | ADD.AB #2 $79 | SPL.B $77 $78] start=0 name=""`, true
 	}
